@@ -77,6 +77,25 @@ def _term_strings(t):
         return out
     if k == 'iterelem':
         return _container_strings(t[1])
+    if k == 'fmt':
+        return _term_strings(t[1])
+    if k == 'fstr':
+        # cartesian product of the parts (bounded)
+        acc = {''}
+        for part in t[1]:
+            ps = _term_strings(part)
+            if ps is None:
+                return None
+            acc = {a + b for a in acc for b in ps}
+            if len(acc) > 64:
+                return None
+        return acc
+    if k == 'binop' and t[1] == 'Add':
+        a = _term_strings(t[2])
+        b = _term_strings(t[3])
+        if a is None or b is None:
+            return None
+        return {x + y for x in a for y in b}
     if k == 'sub' and t[2][0] == 'const':
         # element i of a zip over constant tuples / of a tuple of tuples
         base = t[1]
@@ -193,6 +212,9 @@ class H5Schema(object):
         env = pa.var_origins(fi)
         handles = dict()
         handles[param] = {''}
+        # names bound by `with ... as name`: scoped to that with body
+        with_bound = dict()
+        handles['__with__'] = with_bound
         changed = True
         rounds = 0
         while changed and rounds < 6:
@@ -203,8 +225,14 @@ class H5Schema(object):
                 if isinstance(node, (ast.With, ast.AsyncWith)):
                     for it in node.items:
                         if isinstance(it.optional_vars, ast.Name):
-                            pairs.append((it.optional_vars.id,
-                                          it.context_expr))
+                            pf = self._handle_prefixes(
+                                fi, it.context_expr, param, handles, env)
+                            key = (id(node), it.optional_vars.id)
+                            old = with_bound.get(key)
+                            if old != pf:
+                                with_bound[key] = pf
+                                changed = True
+                    continue
                 elif isinstance(node, ast.Assign) and len(
                         node.targets) == 1:
                     t = node.targets[0]
@@ -223,7 +251,12 @@ class H5Schema(object):
         return handles
 
     def _denotes_file(self, fi, e, param, env):
-        """does path expression e denote the file `param`?"""
+        """does path expression e denote the file `param`?  `param` may
+        also name a local variable holding a path created in fi"""
+        if param not in fi.params:
+            from .tempdirs import strip_identity
+            v = strip_identity(self.db, fi, e)
+            return isinstance(v, ast.Name) and v.id == param
         for (r, rel) in self.pa.origins(fi, e, env):
             if r == param and rel == 'same':
                 return True
@@ -275,6 +308,19 @@ class H5Schema(object):
 
     def _expr_prefixes(self, e, handles):
         if isinstance(e, ast.Name):
+            # innermost enclosing `with ... as <name>` decides
+            p = getattr(e, '_parent', None)
+            while p is not None and not isinstance(
+                    p, (ast.FunctionDef, ast.AsyncFunctionDef)):
+                if isinstance(p, (ast.With, ast.AsyncWith)):
+                    key = (id(p), e.id)
+                    wb = handles.get('__with__', {})
+                    if key in wb:
+                        # the context expression itself is outside
+                        if not any(sub is e for it in p.items
+                                   for sub in ast.walk(it.context_expr)):
+                            return wb[key]
+                p = getattr(p, '_parent', None)
             return handles.get(e.id, set())
         if isinstance(e, ast.Attribute) and isinstance(e.value, ast.Name) \
                 and e.value.id == 'self':
@@ -445,6 +491,9 @@ class H5Schema(object):
             pf = {''}
         for acc in self.accesses(callee, pn):
             for b in pf:
-                out.append(Access(b + acc.key, acc.kind, acc.fi, acc.site,
+                k = b + acc.key
+                if k.count('/') > 3:
+                    continue        # recursive walkers: bounded depth
+                out.append(Access(k, acc.kind, acc.fi, acc.site,
                                   acc.required,
                                   acc.via + ((fi, call),)))
